@@ -290,8 +290,8 @@ func runC11(c *core.Ctx) *core.Outcome {
 	for ri := range ts {
 		readCheck(nops, ri, ri)
 	}
-	// per-session listing on the filesystem: no entry tagged with another session
-	if (m.kind == world.BackFs || m.kind == world.BackFsBin) && len(vios) == 0 {
+	// per-session listing (filesystem, Postgres): no entry tagged with another session or another data type
+	if (m.kind == world.BackFs || m.kind == world.BackFsBin || m.kind == world.BackPg) && len(vios) == 0 {
 		for ri, x := range ts {
 			if !sessioned(x.typ) || x.sid == "" || !accepted[ri] {
 				continue
@@ -309,7 +309,10 @@ func runC11(c *core.Ctx) *core.Outcome {
 					if kk == nil {
 						break
 					}
-					if ty, sid, key, ok := tagTriple(vv); ok && sid != x.sid {
+					if ty, sid, key, ok := tagTriple(vv); ok && ty != x.typ {
+						addV("cross-type-listing", nops, map[string]string{"backend": m.name},
+							"on %s the listing of type %s for session %q contains key %q with the value written for %s: data of another data type", m.name, typeNames[x.typ], x.sid, kk, triple{ty, sid, key})
+					} else if ok && sid != x.sid {
 						owner := triple{ty, sid, key}
 						shape := collisionShape(m, triple{x.typ, x.sid, string(kk)}, owner)
 						addV("cross-listing", nops, map[string]string{"shape": shape, "backend": m.name},
